@@ -1709,7 +1709,8 @@ def convert_to_lut8(op, fn, fn_name):
     for x in ix:
         x_real = ifm_scale * (x - zp_in)
         y_real = fn(x_real)
-        lut_result = round_away_zero(zp_out + y_real / ofm_scale)
+        # round the scaled value, then add the zero point (reference LUTPopulate; a tie must not be rounded around the zero point)
+        lut_result = round_away_zero(y_real / ofm_scale) + zp_out
         lut_result = min(quantized_max, max(quantized_min, lut_result))
         values.append(lut_result)
     return convert_to_lut(op, values, fn_name)
